@@ -40,8 +40,8 @@ GATE_INV = {"C09": ("I3",), "C14": ("I2",), "C15": ("I1", "I7", "I8"),
 BUDGET = {
     "quick": {"C09": (1200, 700), "C14": (2400, 600), "C15": (2000, 600),
               "C03": (1800, 600), "C04": (1800, 700), "C12": (1800, 600)},
-    "thorough": {"C09": (30000, 18000), "C14": (50000, 10000), "C15": (40000, 10000),
-                 "C03": (36000, 10000), "C04": (36000, 12000), "C12": (36000, 10000)},
+    "thorough": {"C09": (30000, 18000), "C14": (100000, 20000), "C15": (80000, 20000),
+                 "C03": (72000, 20000), "C04": (72000, 24000), "C12": (72000, 20000)},
 }
 WALL_CAP = {"quick": 600, "thorough": 4 * 3600}
 DEFAULT_SEED = {"quick": 20260923, "thorough": 7}
